@@ -12,6 +12,15 @@
 (*   SetCutoff(c)       Model.TimeSeriesCutoff = c              c = NoCut: None       *)
 (*   RenderTable(fmt)   EquationSolver.GenerateCSVtext(fmt)                           *)
 (*   BaseCsv            BaseSolver.CreateCsvString()                                  *)
+(*   Extend(name)       TimeSeriesHolder.AppendValue(name, 7): the solver (or a user) *)
+(*                      adds a point to one series; not a read.  Together with an     *)
+(*                      InitStore whose series differ in length this makes the store  *)
+(*                      RAGGED, as it is after an interrupted run (exogenous series   *)
+(*                      have MaxTime+1 points, the others stop at the failing step),  *)
+(*                      between the steps of a stepwise run, or in a holder filled at *)
+(*                      different rates.  Reads of a ragged store must be as pure as  *)
+(*                      reads of a rectangular one: rendering tabulates the common    *)
+(*                      prefix and leaves every stored list at its own length.        *)
 (*                                                                                    *)
 (* GetOp / MutateOp / RenderOp / BaseCsvOp are the single source of truth: the        *)
 (* actions below and the trace specification Results_Trace both use them.             *)
@@ -32,12 +41,14 @@ CONSTANTS
     CutArgs,        \* cutoff values used as argument / model default (NoCut = none)
     Fmts,           \* format strings for RenderTable
     MaxHist,        \* bound on the number of calls in a history
+    ExtNames,       \* series that Extend may lengthen ({} = the store keeps its shape)
     AsFound_AliasWhenNoCutoff,
     AsFound_PopOnStore,
     AsFound_BaseCsvDropsT
 
 NoCut == -1
 Sentinel == 99
+ExtVal == 7
 
 ----------------------------------------------------------------------------
 (* what the property says a retrieval returns *)
@@ -78,7 +89,11 @@ MutateOp(st, hd, i, op) ==
     IN [ store |-> IF h.alias THEN [st EXCEPT ![h.name] = new] ELSE st,
          held  |-> IF h.alias THEN hd ELSE [hd EXCEPT ![i].vals = new] ]
 
-(* TimeSeriesHolder.GenerateCSVtext: one column per series, min(length) rows.          *)
+(* TimeSeriesHolder.AppendValue *)
+ExtendOp(st, name) == [st EXCEPT ![name] = Append(@, ExtVal)]
+
+(* TimeSeriesHolder.GenerateCSVtext: one column per series, min(length) rows; the      *)
+(* store may be ragged and stays exactly as it is.                                    *)
 (* The text is modelled by its content; column order is C19's subject.                *)
 MinLen(st) == LET lens == { Len(st[n]) : n \in DOMAIN st }
               IN CHOOSE m \in lens : \A k \in lens : m <= k
@@ -176,6 +191,13 @@ BaseCsv ==
     /\ hist' = Append(hist, Call("BaseCsv", "", NoCut, 0, "", FALSE, ""))
     /\ UNCHANGED << store, held, cutoff, suppress, gets, vl0 >>
 
+Extend(name) ==
+    /\ Len(hist) < MaxHist
+    /\ store' = ExtendOp(store, name)
+    /\ last' = [NoLast EXCEPT !.ev = "Extend"]
+    /\ hist' = Append(hist, Call("Extend", name, NoCut, 0, "", FALSE, ""))
+    /\ UNCHANGED << held, cutoff, suppress, varlist, gets, texts, vl0 >>
+
 Names == DOMAIN store
 
 ReadStep ==
@@ -187,6 +209,7 @@ ReadStep ==
 Next == \/ ReadStep
         \/ \E b \in BOOLEAN : b # suppress /\ SetSuppress(b)
         \/ \E c \in CutArgs : c # cutoff /\ SetCutoff(c)
+        \/ \E n \in ExtNames : Extend(n)
 
 Spec == Init /\ [][Next]_vars
 
